@@ -292,7 +292,10 @@ class Program:
                 if f.parent:
                     m[f.parent].append(f)
             self._closures_of = m
-        return self._closures_of.get(fn.key, [])
+        out = list(self._closures_of.get(fn.key, []))
+        for gk in getattr(fn, "inlined_keys", ()) or ():      # closures written in a helper that was spliced into fn are fn's now
+            out += self._closures_of.get(gk, [])
+        return out
 
     def targets(self, t, may=True):
         """Function keys a call terminator may invoke: resolved callee, or CHA candidates."""
